@@ -1738,9 +1738,8 @@ class ListBox(Widget, WidgetContainerMixin):
             adjust = maxrow - (row_offset + rows)
             t = [(ro + adjust, w, p, r) for (ro, w, p, r) in t]
 
-        # if focus_widget (first in t) is off edge, remove it
-        row_offset, _w, _p, rows = t[0]
-        if row_offset + rows <= 0:
+        # remove the widgets (focus_widget first) that are completely off the top edge
+        while len(t) > 1 and t[0][0] + t[0][3] <= 0:
             del t[0]
             snap_region_start -= 1
 
